@@ -171,6 +171,42 @@ Fixpoint lookup_ctx (fuel : nat) (c : core) (o : nat) (ty : nat) : option Z :=
 Definition use_ctx (c : core) (o : nat) (ty : nat) : option Z :=
   lookup_ctx (S (length (owners c))) c o ty.
 
+(** the owner whose map holds the binding [with_context] finds ([take_context] removes the binding
+    there, [update_context] mutates it there) *)
+Fixpoint lookup_owner (fuel : nat) (c : core) (o : nat) (ty : nat) : option nat :=
+  match fuel with
+  | O => None
+  | S f =>
+      match nth_error (owners c) o with
+      | None => None
+      | Some ow =>
+          match assoc ty (o_ctx ow) with
+          | Some _ => Some o
+          | None =>
+              match o_parent ow with
+              | Some p => if alive c p then lookup_owner f c p ty else None
+              | None => None
+              end
+          end
+      end
+  end.
+Definition provider (c : core) (o : nat) (ty : nat) : option nat :=
+  lookup_owner (S (length (owners c))) c o ty.
+
+Definition unbind (ty : nat) (l : list (nat * Z)) : list (nat * Z) :=
+  filter (fun p => negb (fst p =? ty)) l.
+Definition take_ctx (o : nat) (ty : nat) (c : core) : core :=
+  match provider c o ty with
+  | Some p => upd_owner p (fun ow => mkOwner (o_parent ow) (o_children ow) (o_nodes ow) (o_cleanups ow)
+                                             (unbind ty (o_ctx ow)) (o_paused ow) (o_alive ow)) c
+  | None => c
+  end.
+Definition update_ctx (o : nat) (ty : nat) (v : Z) (c : core) : core :=
+  match provider c o ty with
+  | Some p => provide p ty v c
+  | None => c
+  end.
+
 (** ** the release cascade
     [JCleanup o]: Cleanup::cleanup on owner [o] (no-op if its Weak no longer upgrades);
     [JDrop o]:    the last strong reference to [o] goes away: Drop for OwnerInner;
@@ -245,6 +281,8 @@ Inductive stmt :=
                                   owner whatever T and S are *)
 | SOnCleanup
 | SProvide (ty : nat) (v : Z) | SUse (ty : nat)
+| STake (ty : nat)             (* take_context::<T>(): the value of the nearest binding, which is removed *)
+| SUpdate (ty : nat) (v : Z)   (* update_context::<T>(|c| replace(c, v)): the old value; the nearest binding becomes v *)
 | SChild (b : list stmt)       (* let o = Owner::new(); o.with(|| b) — the handle is retained *)
 | SEffect (b : list stmt)      (* Effect::new(move |_| { trigger.track(); b }) *)
 | SMemo (b : list stmt)        (* Memo::new(move |_| { trigger.track(); b; 0 }) — runs when read *)
@@ -264,7 +302,7 @@ Definition size_body (b : list stmt) : nat := fold_right (fun s n => size_stmt s
 Record eff := mkEff {
   e_owner : nat; e_key : key; e_body : list stmt;
   e_render : bool;   (* a RenderEffect: no arena entry, the handle holds the Sender *)
-  e_held : bool;     (* RenderEffect: the harness still holds the handle *)
+  e_held : bool;     (* RenderEffect: the harness still holds the handle; Effect: not stopped *)
   e_set : bool;      (* channel flag *)
   e_dirty : bool;    (* EffectInner.dirty *)
   e_first : bool;    (* first_run; the effect subscribes to its trigger when it runs *)
@@ -301,6 +339,8 @@ Fixpoint exec_stmt (cur : nat) (st : stmt) (s : bstate) : bstate :=
   | SOnCleanup => set_core s (reg_cleanup cur (b_core s))
   | SProvide ty v => set_core s (provide cur ty v (b_core s))
   | SUse ty => blog s [LUse ty (use_ctx (b_core s) cur ty)]
+  | STake ty => blog (set_core s (take_ctx cur ty (b_core s))) [LUse ty (use_ctx (b_core s) cur ty)]
+  | SUpdate ty v => blog (set_core s (update_ctx cur ty v (b_core s))) [LUse ty (use_ctx (b_core s) cur ty)]
   | SChild b =>
       let '(o, c) := new_owner (Some cur) (b_core s) in
       let s1 := mkB c (effs s) (memos s) (handles s) (holders s ++ [(HUser true, b)]) (allkeys s) (imms s) in
@@ -352,6 +392,8 @@ Inductive op :=
 | Alloc (o : nat) (n : nat) | AllocItems (o : nat) (n : nat) (kind : nat) | Dispose (h : nat)
 | Pause (o : nat) | Resume (o : nat) | UseAt (o : nat) (ty : nat)
 | DisposeMemo (m : nat) | DisposeEffect (e : nat)
+| StopEffect (e : nat)         (* Effect::stop: the EffectInner is taken out of its arena entry (the
+                                  Sender goes away), the entry itself stays until it is released *)
 | NotifyImm (i : nat) | DropImm (i : nat).
 
 (** the harness still holds the handle of user scope [o] *)
@@ -363,7 +405,7 @@ Definition user_body (s : bstate) (o : nat) : option (list stmt) :=
 
 (** the effect's Sender still exists: its arena entry (Effect) or its handle (RenderEffect) *)
 Definition eff_alive (s : bstate) (e : eff) : bool :=
-  if e_render e then e_held e else contains (b_core s) (e_key e).
+  if e_render e then e_held e else e_held e && contains (b_core s) (e_key e).
 Definition eff_ready (s : bstate) (e : eff) : bool :=
   negb (e_done e) && (e_woken e || negb (eff_alive s e)).
 Definition ready (s : bstate) : list nat := idx_from (eff_ready s) 0 (effs s).
@@ -513,6 +555,14 @@ Definition step (s : bstate) (x : op) : bstate :=
                set_eff s i (fun e => mkEff (e_owner e) (e_key e) (e_body e) (e_render e) false (e_set e)
                                            (e_dirty e) (e_first e) (e_woken e) (e_done e))
           else set_core s (dispose (e_key e) (b_core s))
+      | None => s
+      end
+  | StopEffect i =>
+      match nth_error (effs s) i with
+      | Some e =>
+          if e_render e then s
+          else set_eff s i (fun e => mkEff (e_owner e) (e_key e) (e_body e) (e_render e) false (e_set e)
+                                           (e_dirty e) (e_first e) (e_woken e) (e_done e))
       | None => s
       end
   | NotifyImm i =>
